@@ -27,6 +27,18 @@ func (s *Store) snapshotRevert(revertTo Snapshot) error {
 			" fileNameCurr: %s", revertToFooter.fileName, fileNameCurr)
 	}
 
+	// The file is reached through a persisted segment: of the top-level
+	// collection or, when it has none, of its child collections.  A
+	// footer without any segment is in the current file just the same,
+	// which the current footer then leads to.
+	fref := revertToFooter.fileRef()
+	if fref == nil && s.footer != nil {
+		fref = s.footer.fileRef()
+	}
+	if fref == nil || fref.file == nil {
+		return fmt.Errorf("revert footer has no persisted segments")
+	}
+
 	persistOptions := StorePersistOptions{}
 	footer, err := s.revertToSnapshot(revertToFooter, persistOptions)
 	if err != nil {
@@ -40,8 +52,7 @@ func (s *Store) snapshotRevert(revertTo Snapshot) error {
 		footer.PrevFooterOffset = s.footer.filePos
 	}
 
-	err = s.persistFooter(revertToFooter.SegmentLocs[0].mref.fref.file, footer,
-		persistOptions)
+	err = s.persistFooter(fref.file, footer, persistOptions)
 	if err != nil {
 		footer.DecRef()
 		return err
@@ -59,13 +70,13 @@ func (s *Store) snapshotRevert(revertTo Snapshot) error {
 
 func (s *Store) revertToSnapshot(revertToFooter *Footer, options StorePersistOptions) (
 	rv *Footer, err error) {
-	if len(revertToFooter.SegmentLocs) <= 0 {
-		return nil, fmt.Errorf("revert footer slocs <= 0")
-	}
-
-	mref := revertToFooter.SegmentLocs[0].mref
-	if mref == nil || mref.fref == nil || mref.fref.file == nil {
-		return nil, fmt.Errorf("revert footer parts nil")
+	// A collection without persisted segments (all of its data may be
+	// in child collections, or it may be empty) is reverted to as is.
+	if len(revertToFooter.SegmentLocs) > 0 {
+		mref := revertToFooter.SegmentLocs[0].mref
+		if mref == nil || mref.fref == nil || mref.fref.file == nil {
+			return nil, fmt.Errorf("revert footer parts nil")
+		}
 	}
 
 	slocs := append(SegmentLocs{}, revertToFooter.SegmentLocs...)
